@@ -285,7 +285,10 @@ def compact_bound(chk, dprog, cfg):
             t0, t1 = rt[3]
             if is_call(t0, cd.D + "utils::is_compact", nargs=1):
                 t0, t1 = t1, t0
-            ok = is_call(t0, "clone", nargs=1) and paths.access_path(mb, t0[2][0]) is not None and paths.norm(paths.access_path(mb, t0[2][0])[1]).endswith(".ty") \
+            # the member's type, cloned or borrowed
+            ty_place = t0[2][0] if is_call(t0, "clone", nargs=1) else t0
+            ap_ = paths.access_path(mb, ty_place)
+            ok = ap_ is not None and ap_[0] == F and paths.norm(ap_[1]).endswith(".ty") \
                 and is_call(t1, cd.D + "utils::is_compact", nargs=1) and unref(t1[2][0]) == F
             detail = "maps each member to %s" % path_str(rt)[:100]
     if len(maps) != 1:
